@@ -61,8 +61,10 @@ Print Assumptions C05_hijack_gets_decrypted.
 
 (* traffic that does not begin with a TLS handshake: plain HTTP, insecure
    session, no TLS state, cleartext origin, hijacker gets the raw connection
-   (true of the pinned commit as well: both variants) *)
+   (true of the pinned commit as well: both variants); guard: no modifier
+   itself calls Session.MarkSecure() *)
 Theorem C05_plain_inside_tunnel_insecure : forall fx l reqs j f,
+  forallb no_msecure reqs = true ->
   1 <= j -> In (Seen j f) (run fx l TunPlain reqs) ->
   f_scheme f = Http /\ f_secure f = false /\ f_tls f = false /\ f_sess f = 0 /\
   (f_hk f = None -> f_host f <> HEmpty -> f_up f = UpPlain /\ f_status f = Some 200) /\
@@ -85,7 +87,7 @@ Proof. exact c05_ok_iff. Qed.
 Print Assumptions C05_oracle_is_the_property.
 
 Theorem C05_model_satisfies_oracle : forall l t reqs,
-  forallb has_host reqs = true -> C05_good l t reqs (run true l t reqs).
+  forallb has_host reqs = true -> forallb no_msecure reqs = true -> C05_good l t reqs (run true l t reqs).
 Proof. exact fixed_good. Qed.
 Print Assumptions C05_model_satisfies_oracle.
 
@@ -100,9 +102,10 @@ Theorem C05_pinned_commit_hijack_refuted :
 Proof. exact asis_hijack_refuted. Qed.
 Print Assumptions C05_pinned_commit_hijack_refuted.
 
-(* Non-vacuity *)
+(* Non-vacuity: the modifier of request 1 calls Session.MarkInsecure(),
+   request 2 is presented as https / secure all the same *)
 Example C05_example :
-  run true LShaped TunTls [mkInner FOrigin false; mkInner FAbsHttp false; mkInner FAbsHttps true; mkInner FOrigin false]
+  run true LShaped TunTls [mkInner FOrigin false MInsecure; mkInner FAbsHttp false MValues; mkInner FAbsHttps true MNone; mkInner FOrigin false MNone]
   = [Seen 0 (mkF Http HAuth false false 0 UpNone (Some 200) None None);
      Seen 1 (mkF Https HHeader true true 0 UpTls (Some 200) None None);
      Seen 2 (mkF Https HUrl true true 0 UpTls (Some 200) None None);
@@ -113,5 +116,5 @@ Proof. vm_compute. reflexivity. Qed.
 Example C05_example_hypotheses_met :
   decrypted LShaped TunTls = true /\
   In (Seen 2 (mkF Https HUrl true true 0 UpTls (Some 200) None None))
-     (run true LShaped TunTls [mkInner FOrigin false; mkInner FAbsHttp false]).
+     (run true LShaped TunTls [mkInner FOrigin false MInsecure; mkInner FAbsHttp false MNone]).
 Proof. split; [reflexivity|]. vm_compute. auto. Qed.
